@@ -1026,3 +1026,42 @@ def rule_tag_tree_key_is_base(ctx):
                 ctx.violated("BASETAGKEY", key, f.where(c[5]), "the tag tree is searched with `%s`, which was not reduced with BASETAG(): for a special tag the entry of its base tag is missed" % (v or render(c[3][1])[:30]))
     ctx.floor("BASETAGKEY", 4, n, "(look-ups in the tag tree)")
     return n
+
+
+def rule_descriptor_offset_block(ctx):
+    """OWNBLOCK (C02, C12): a descriptor lives in one particular DD block; its position on disk is that block's offset plus the header
+    plus its index times DD_SZ.  In a routine that has the descriptor's own block at hand (a local `block`), the sum that locates
+    a descriptor is rooted at `block->myoffset` — not at the head or the tail of the block list, which is the same block only while
+    the file has a single DD block."""
+    prog = ctx.prog
+    n = 0
+    for f in prog.lib_funcs():
+        if not f.rel.endswith("hfiledd.c"):
+            continue
+        has_block = any(x[0] == "var" and x[1] == "block" for _b, _i, _s, x in f.nodes(True))
+        if not has_block:
+            continue
+        seen = set()
+        for _b, _i, s, x in f.nodes(True):
+            if not (x[0] == "bin" and x[1] == "+"):
+                continue
+            ads = _addends(x)
+            if not any(kind(a) == "bin" and a[1] == "*" and any(int_name(y) == "DD_SZ" for y in (a[2], a[3])) for a in ads):
+                continue
+            offs = [a for a in ads if mem_field(a) and mem_field(a)[1] == "myoffset"]
+            if not offs:
+                continue
+            r = render(x)
+            if r in seen or any(r in o for o in seen):
+                continue
+            seen.add(r)
+            n += 1
+            key = "OWNBLOCK:%s#%d" % (f.name, len(seen))
+            root = render(strip(strip(offs[0])[1]))
+            if root == "block":
+                ctx.holds("OWNBLOCK", key, f.where(s.get("l")), "`%s` is rooted at the descriptor's own block" % r[:70], nontrivial=True)
+            else:
+                ctx.violated("OWNBLOCK", key, f.where(s.get("l")), "`%s` locates a descriptor from `%s->myoffset` although the descriptor's own block is at hand: descriptors of the second and later "
+                             "DD blocks are written into the slots of another block" % (r[:80], root))
+    ctx.floor("OWNBLOCK", 2, n, "(descriptor positions computed in routines that hold the descriptor's block)")
+    return n
